@@ -579,7 +579,8 @@ class GraphTap:
     """In-process wrapper on the two science.py functions as imported by game.py: records the graph they are given."""
 
     def __init__(self):
-        self.graphs: List[dict] = []
+        self.graphs: List[dict] = []          # given to graph_has_cycle
+        self.sorted_graphs: List[dict] = []   # given to topological_sort
 
     def __enter__(self):
         import primaite.game.game as G
@@ -590,11 +591,17 @@ class GraphTap:
         def ghc(graph):
             tap.graphs.append(graph)
             return tap.orig[0](graph)
+
+        def ts(graph):
+            tap.sorted_graphs.append(graph)
+            return tap.orig[1](graph)
         G.graph_has_cycle = ghc
+        G.topological_sort = ts
         return self
 
     def __exit__(self, *a):
         self.G.graph_has_cycle = self.orig[0]
+        self.G.topological_sort = self.orig[1]
 
 
 # what each component class is proved to read of the agent's own history item (Props/C10Calc.lean `Comp.reads`; the driver's
@@ -882,8 +889,9 @@ def run_impl(case: dict) -> Tuple[List[str], dict]:
         if game is not None:
             check.after_load(game)
         if tap.graphs:
-            graph = tap.graphs[0]
-            capture["graph"] = {k: list(v) for k, v in graph.items()}
+            capture["graph"] = {k: list(v) for k, v in tap.graphs[0].items()}
+        if tap.graphs or tap.sorted_graphs:  # (the set orders are read off the graph given to either function)
+            graph = (tap.graphs or tap.sorted_graphs)[0]
             # insertion sequence per surviving agent object = its shared-reward components in component order
             for ref, ins in declared_graph(case["agents"]).items():
                 if ref in graph:
@@ -1193,6 +1201,12 @@ def _env_cfg(case: dict):
         st = a.get("agent_settings")
         if early and a.get("type") == "red-database-corrupting-agent" and isinstance(st, dict) and "start_step" in st:
             st["start_step"], st["frequency"], st["variance"] = rng.range(2, 8), rng.range(3, 8), rng.range(0, 1)
+    if case.get("marl"):
+        # PrimaiteRayMARLEnv.__init__ builds `spaces.MultiBinary(<numpy.int64>)` for an agent with action masking, which the installed
+        # gymnasium refuses (nothing to do with rewards): masking is switched off for the multi-agent runs
+        for a in cfg["agents"]:
+            if isinstance(a.get("agent_settings"), dict) and a["agent_settings"].get("action_masking"):
+                a["agent_settings"]["action_masking"] = False
     cfg["agents"] = rng.shuffle(cfg["agents"])
     return cfg, agents_desc(cfg)
 
@@ -1413,6 +1427,39 @@ def perturbed_paths(rng: Rng, paths: List[List[str]], state: dict) -> List[List[
     return out[:40]
 
 
+def marl_env_class():
+    """`primaite.session.ray_envs.PrimaiteRayMARLEnv` — its real `__init__` / `reset` / `step`. The module needs exactly one name of
+    ray (`ray.rllib.env.multi_agent_env.MultiAgentEnv`, the base class); rllib cannot be imported in this sandbox (`dm_tree` is
+    missing) and costs ~9 s to try, so the module is imported over a stub of that base class (a plain `gymnasium.Env`), and the stub
+    modules are removed from `sys.modules` again."""
+    import importlib
+    import sys
+    import types
+    if "primaite.session.ray_envs" in sys.modules:
+        return sys.modules["primaite.session.ray_envs"].PrimaiteRayMARLEnv
+    import gymnasium
+
+    class MultiAgentEnv(gymnasium.Env):
+        def __init__(self):
+            pass
+    names = ["ray", "ray.rllib", "ray.rllib.env", "ray.rllib.env.multi_agent_env"]
+    saved = {n: sys.modules.get(n) for n in names}
+    try:
+        for n in names:
+            m = types.ModuleType(n)
+            m.__path__ = []
+            sys.modules[n] = m
+        sys.modules["ray.rllib.env.multi_agent_env"].MultiAgentEnv = MultiAgentEnv
+        mod = importlib.import_module("primaite.session.ray_envs")
+    finally:
+        for n in names:
+            if saved[n] is None:
+                sys.modules.pop(n, None)
+            else:
+                sys.modules[n] = saved[n]
+    return mod.PrimaiteRayMARLEnv
+
+
 def run_env(case: dict) -> Tuple[List[str], dict]:
     import random
     import shutil
@@ -1458,10 +1505,16 @@ def run_env(case: dict) -> Tuple[List[str], dict]:
     try:
         with GraphTap() as tap, CalcTap() as ctap, live:
             env = None
+            marl = None
             try:
-                if n_proxies == 1:
+                if n_proxies == 1 and not case.get("game_loop"):
                     env = PrimaiteGymEnv(env_config=cfg)
                     game = env.game
+                elif n_proxies > 1 and case.get("marl"):   # (only the cases prepared for it by _env_cfg: action masking off)
+                    # several RL agents: the multi-agent environment (its OWN step pipeline: pre_timestep / apply_agent_actions /
+                    # advance_timestep / update_agents, and the dictionary of rewards it returns)
+                    marl = marl_env_class()(env_config=cfg)
+                    game = marl.game
                 else:  # several RL agents (or none): the game loop itself, every RL agent given a random action of its map
                     game = G.PrimaiteGame.from_config(cfg)
             except Exception as e:  # a shipped / generated scenario that does not load: reported, not a crash of the check
@@ -1472,7 +1525,11 @@ def run_env(case: dict) -> Tuple[List[str], dict]:
                 capture["step_problems"] = [f"scenario does not load: {case.get('source')}: {type(e).__name__}: {e} | "
                                             + traceback.format_exc()[-600:].replace("\n", " | ")]
                 return [f"raised other:{type(e).__name__}", "no-game"], capture
-            graph = tap.graphs[0]
+            if not tap.graphs:
+                # the scenario loaded without `graph_has_cycle` ever being asked: a failing input (an unchecked sharing graph), not a
+                # crash of the check; the graph is taken from the `topological_sort` call if there was one
+                check._bad(f"sharing graph: setup_reward_sharing never called graph_has_cycle while loading {case.get('source')}")
+            graph = tap.graphs[0] if tap.graphs else (tap.sorted_graphs[0] if tap.sorted_graphs else {})
             capture["graph"] = {k: list(v) for k, v in graph.items()}
             for ref, ins in declared_graph(agents).items():
                 if ref in graph:
@@ -1490,6 +1547,15 @@ def run_env(case: dict) -> Tuple[List[str], dict]:
                         _obs, rew, _term, _trunc, _info = env.step(env.action_space.sample())
                         if Fraction(rew) != Fraction(env.agent.reward_function.current_reward):
                             check._bad("env.step reward: env.step returned a reward different from the agent's current_reward")
+                    elif marl is not None:
+                        acts = {nm: arng.below(len(ag.action_manager.action_map)) for nm, ag in marl.agents.items()}
+                        _obs, rews, _term, _trunc, _info = marl.step(acts)
+                        if set(rews) != set(marl.agents):
+                            check._bad(f"env.step reward: the multi-agent step returned rewards for {sorted(rews)}, the RL agents are {sorted(marl.agents)}")
+                        for nm, ag in marl.agents.items():
+                            if nm in rews and Fraction(rews[nm]) != Fraction(ag.reward_function.current_reward):
+                                check._bad(f"env.step reward: the multi-agent step returned {rews[nm]!r} for {nm}, whose current_reward is "
+                                           f"{ag.reward_function.current_reward!r}")
                     else:
                         for ag in game.rl_agents.values():
                             ag.store_action(arng.below(len(ag.action_manager.action_map)))
@@ -1525,6 +1591,22 @@ def run_env(case: dict) -> Tuple[List[str], dict]:
                 out.append(show_mem(game))
                 out.append(show_info(game))
                 check.after_step(game, ctap, k + 1)
+                if (k + 1) in reset_at and marl is not None:
+                    # end of an episode in the multi-agent environment: a new game, totals restart
+                    check.episode_end(game)
+                    try:
+                        marl.reset()
+                    except Exception:
+                        import traceback
+                        capture["sim_exception"] = f"{case.get('source')} seed {case['seed']} reset after step {k + 1}: " + traceback.format_exc()[-1500:]
+                        steps.append(stp)
+                        break
+                    game = marl.game
+                    stp["reset_after"] = True
+                    out.append("ok order=" + ",".join(esc(x) for x in game._reward_calculation_order) + " " + show_agents(game))
+                    check.after_reset(game)
+                    live.mem.clear()
+                    ctap.last.clear()
                 if (k + 1) in reset_at and env is not None:
                     # end of an episode: the environment's record of the episode total, then a new game
                     check.episode_end(game)
@@ -1545,7 +1627,7 @@ def run_env(case: dict) -> Tuple[List[str], dict]:
                     if scheduled:  # the next episode has its own configuration: agents, components, sharing graph
                         agents = agents_desc(env.episode_scheduler(env.episode_counter))
                         stp["new_agents"] = agents
-                        g2 = tap.graphs[-1]
+                        g2 = (tap.graphs or tap.sorted_graphs or [{}])[-1]
                         stp["new_setorders"] = [(ins, list(g2[ref])) for ref, ins in declared_graph(agents).items() if ref in g2]
                         check.reconfigure(agents)
                         hostnames = {c["node"] for a in agents for c in a["comps"] if "node" in c}
@@ -1561,6 +1643,7 @@ def run_env(case: dict) -> Tuple[List[str], dict]:
             capture["rechecked"] = ctap.rechecked
             capture["live_checked"] = live.checked
             capture["live_problems"] = list(live.problems)
+            capture["marl"] = marl is not None
             if env is not None:
                 env.close()
     finally:
